@@ -3,52 +3,40 @@ import MythVerif.Proofs.WsQueueTsoTac
 namespace MythVerif.WsqTso
 open MythVerif.Wsq
 
-set_option maxHeartbeats 4000000 in
 theorem t_wk4 (s s' : St) (p : Pid) (r) : Inv s → s.tpc p = .wk4 r → stepT s p = some s' → Inv s' := by
   intro h heq hs
   have hb := h.tbufE p (by simp [heq, mayBuf])
-  cases h
   simp only [stepT, heq, hb] at hs
   simp at hs; subst hs
-  simp only [ownerLocked, carry, resetting, ownerFlight] at *
-  tso_finish
+  tso_fastT h p [wk4]
 
-set_option maxHeartbeats 4000000 in
 theorem t_wk4u (s s' : St) (p : Pid) (r) : Inv s → s.tpc p = .wk4u r → stepT s p = some s' → Inv s' := by
   intro h heq hs
   have hcfg := h.cfg
-  cases h
   simp only [stepT, heq, releaseT, hcfg, code_unlockFence, if_true] at hs
   split at hs
   · rename_i hb
     simp at hb
     simp at hs; subst hs
-    simp only [ownerLocked, carry, resetting, ownerFlight] at *
-    tso_finish
+    tso_fastT h p [wk4u]
   · simp at hs
 
-set_option maxHeartbeats 4000000 in
 theorem t_wk5 (s s' : St) (p : Pid) (b) : Inv s → s.tpc p = .wk5 b → stepT s p = some s' → Inv s' := by
   intro h heq hs
   have hb := h.tbufE p (by simp [heq, mayBuf])
-  cases h
   simp only [stepT, heq, hb] at hs
   simp at hs; subst hs
-  simp only [ownerLocked, carry, resetting, ownerFlight] at *
-  tso_finish
+  tso_fastT h p [wk5]
 
-set_option maxHeartbeats 4000000 in
 theorem t_wk6 (s s' : St) (p : Pid) : Inv s → s.tpc p = .wk6 → stepT s p = some s' → Inv s' := by
   intro h heq hs
   have hcfg := h.cfg
-  cases h
   simp only [stepT, heq, releaseT, hcfg, code_unlockFence, if_true] at hs
   split at hs
   · rename_i hb
     simp at hb
     simp at hs; subst hs
-    simp only [ownerLocked, carry, resetting, ownerFlight] at *
-    tso_finish
+    tso_fastT h p [wk6]
   · simp at hs
 
 end MythVerif.WsqTso
